@@ -172,7 +172,12 @@ def run(ctx):
     for _ in range(ctx.budget(60, 600)):
         n = rng.choice([2, 3, 4, 5])
         commuting = rng.random() < 0.5
-        if commuting:
+        boundary = _ < 6 or rng.random() < 0.08       # Hamiltonians without any non-identity term, one-qubit registers
+        if boundary:
+            n = rng.choice([1, 1, 2, 3])
+            commuting = True
+            strs = [] if rng.random() < 0.6 else [rng.choice([('Z',) * 1 + ('I',) * (n - 1), ('X',) + ('I',) * (n - 1)])]
+        elif commuting:
             rows, _r = G.rand_tableau(rng, n, 0)
             base = rows[:n]
             strs = []
@@ -189,12 +194,12 @@ def run(ctx):
             if not strs:
                 continue
         cs = rng.sample([1.0, 2.0, -0.5, 4.0, -3.0, 0.25, 8.0, -16.0], len(strs)) if len(strs) <= 8 else None
-        if rng.random() < 0.3:        # a very small term (far below the square root of the tolerance)
+        if cs and rng.random() < 0.3:        # a very small term (far below the square root of the tolerance)
             cs[rng.randrange(len(cs))] = rng.choice([2.0 ** -20, -2.0 ** -24])
         terms = [((s, 0), complex(c)) for s, c in zip(strs, cs)]
-        if rng.random() < 0.3:        # a constant (identity) term, sometimes the largest coefficient
+        if rng.random() < 0.3 or (boundary and (not terms and rng.random() < 0.7)):        # a constant (identity) term, sometimes the largest coefficient
             terms.insert(rng.randrange(len(terms) + 1), ((tuple('I' * n), 0), complex(rng.choice([32.0, 0.125, -64.0]))))
-        H0 = impl.poly(terms)
+        H0 = impl.poly(terms) if terms else pc.pauli_zero(n)
         rate = rng.choice([2.0, 2.0, 1.0, 1.5, 0.5, 3.0])
         tol = rng.choice([1e-8, 1e-8, 2.0 ** -12])
         rep = dict(N=n, terms=terms, commuting=commuting, max_rate=rate, tol=tol)
@@ -245,12 +250,12 @@ def run(ctx):
         if any(c in 'XY' for l in hm for c in l):
             ctx.fail('SBRG', 'effective Hamiltonian contains a string that is not made of I and Z', dict(rep, heff=str(hm))); continue
         if commuting:
-            Hc = impl.poly(terms)
+            Hc = impl.poly(terms) if terms else pc.pauli_zero(n)
             circ.forward(Hc)
             fm = coefmap_poly(Hc)
             if set(fm) != set(hm) or any(abs(fm[k] - hm[k]) > 1e-9 for k in fm):
                 ctx.fail('SBRG', 'commuting terms: the circuit does not map the input exactly onto the effective Hamiltonian', dict(rep, forward=str(fm), heff=str(hm)))
-            d0 = sum(c * O.dense(o) for o, c in terms)
+            d0 = sum(c * O.dense(o) for o, c in terms) if terms else np.zeros((2 ** n, 2 ** n), dtype=complex)
             d1 = sum(v * O.dense((l, 0)) for l, v in hm.items()) if hm else np.zeros_like(d0)
             if not np.allclose(np.sort(np.linalg.eigvalsh(d0)), np.sort(np.linalg.eigvalsh(d1)), atol=1e-8):
                 ctx.fail('SBRG', 'commuting terms: spectrum not preserved', rep)
